@@ -119,6 +119,10 @@ def gen_case(rng, tier="quick"):
         m["controls"] = rng.random() < 0.4
         m["start_step"] = _pick(rng, [0, 0, 1])
         m["tuple_site"] = rng.random() < 0.4
+        # the same histories in the parallel execution modes (simulated
+        # executors; the reference stays sequential)
+        m["parallel"] = _pick(rng, [None, "multithread", "multiprocess"],
+                              [3, 2, 1])
         restart = rng.random() < 0.6
         if restart:
             m["controls"] = False
@@ -172,6 +176,8 @@ def shrink(case):
     for key in ("dissipation", "unique", "controls", "tuple_site"):
         if m.get(key):
             c = dict(case); c["model"] = dict(m, **{key: False}); out.append(c)
+    if m.get("parallel"):
+        c = dict(case); c["model"] = dict(m, parallel=None); out.append(c)
     if m.get("nsys", 1) > 1:
         c = dict(case); c["model"] = dict(m, nsys=1); out.append(c)
     if m.get("sites", 2) > 2:
@@ -343,7 +349,8 @@ def _tebd_parts(m, n):
     return chain, pts, control, sites, pars
 
 
-def build_pt_tebd(m, n, amps=None, start_step=None, start_time=None):
+def build_pt_tebd(m, n, amps=None, start_step=None, start_time=None,
+                  parallel=None):
     import oqupy
     o = models.ops()
     chain, pts, control, sites, pars = _tebd_parts(m, n)
@@ -351,9 +358,12 @@ def build_pt_tebd(m, n, amps=None, start_step=None, start_time=None):
         amps = oqupy.AugmentedMPS([o["up"]] + [o["down"]] * (m["sites"] - 1))
         start_step = m["start_step"]
         start_time = m["start_time"]
+    extra = {}
+    if parallel:
+        extra["backend_config"] = {"parallel": parallel}
     return oqupy.PtTebd(amps, chain, pts, pars, chain_control=control,
                         start_time=float(start_time), start_step=start_step,
-                        dynamics_sites=sites)
+                        dynamics_sites=sites, **extra)
 
 
 def build_pt_tempo(m, n):
@@ -487,7 +497,15 @@ def run_case(case, dec):
     elif method == "mean_field":
         obj = build_mean_field(m, plan)
     else:
-        obj = build_pt_tebd(m, n)
+        sim = None
+        if m.get("parallel"):
+            from .. import simsched, simexec
+            import oqupy.backends.pt_tebd_backend as backend_mod
+            sim = simsched.Sim(dec, p_switch=0.0, p_clock=0.0)
+            simsched.install(sim)
+            simexec.install_executors(backend_mod)
+            sim.active = True
+        obj = build_pt_tebd(m, n, parallel=m.get("parallel"))
     reached = -1          # furthest target whose compute returned
     poisoned = False      # a retry after a fault raised: only consistency
     pending_fault = False
@@ -569,7 +587,8 @@ def run_case(case, dec):
                 [np.array(g) for g in amps.gammas],
                 [np.array(lam) for lam in amps.lambdas])
             del obj, amps
-            obj = build_pt_tebd(m, n, amps2, step, t)
+            obj = build_pt_tebd(m, n, amps2, step, t,
+                                parallel=m.get("parallel"))
             offset = new_offset
             time_tol = 1e-12
             stats["restarts"] += 1
@@ -641,6 +660,15 @@ def run_case(case, dec):
                      "step %d, expected %d" % (k, have_upto, want_upto))
                 continue
             check_state("compute:%d" % k)
+    if method == "pt_tebd" and m.get("parallel"):
+        sim.active = False
+        stats["gate_tasks"] = len([e for e in sim.log.events
+                                   if e[0] == "task-done"])
+        log.ev("sim", sim.log.digest())
+        if [p for p in sim.pools if not p.shut] and not violations:
+            viol("executor_left_running", "pt_tebd/%s" % m["parallel"],
+                 "an executor is still running after the last compute call "
+                 "returned")
     return {
         "violations": violations[:2], "notes": [], "digest": log.digest(),
         "events": len(log), "sim_ms": 0, "outcomes": [method],
